@@ -41,7 +41,7 @@ Explained(e) ==
   ELSE LET r == Do(MS, e, epoch) IN
        /\ r.ok = e.ok /\ MS' = r.MS /\ ResultsMatch(e, r) /\ epoch' = epoch
 
-Chk(prop, name, holds, e) == holds \/ PrintT(<<"VIOL", prop, name, l, "-", e.a>>)
+Chk(prop, name, holds, e) == IF holds THEN TRUE ELSE PrintT(<<"VIOL", prop, name, l, "-", e.a>>)
 
 TStep ==
   /\ l <= Len(Rec)
